@@ -5,7 +5,7 @@
 use super::Show;
 use crate::loader::Context;
 use crate::output::{Digits, DocString, PropertyReply, SubstanceReply};
-use crate::types::{BaseUnit, Number, Numeric};
+use crate::types::{BaseUnit, BigInt, Number, Numeric};
 use std::collections::BTreeMap;
 use std::iter::once;
 use std::ops::{Add, Div, Mul};
@@ -180,6 +180,15 @@ impl Substance {
                                     .expect("Already known safe")
                                     .to_parts(context);
                                 res.quantity = value.quantity;
+                                // The number is in terms of the whole target,
+                                // so its constant factor has to be shown too.
+                                let (num, den) = bottom_const.to_rational();
+                                if num != BigInt::one() {
+                                    res.factor = Some(num.to_string());
+                                }
+                                if den != BigInt::one() {
+                                    res.divfactor = Some(den.to_string());
+                                }
                                 res
                             } else {
                                 output_show
